@@ -17,7 +17,9 @@
 //   reset <oob_present> <sync_answer -1|0|1> [<this> <other>]   new manager + connection (as link_layer does on connect);
 //                                                 this / other: bit masks of the (EDIV,Rand) slots the application's bond
 //                                                 data base holds an entry for, for this peer / for another peer (default 2 0)
-//   req <io> <oob> <auth> [<maxkey> <idist> <rdist>]   Pairing Request with exactly these fields   (C36 + C32)
+//   req <io> <oob> <auth> [<maxkey> <idist> <rdist> [<retry>]]   Pairing Request with exactly these fields   (C36 + C32);
+//                                                 retry = 1: a central that re-pairs: if the request is answered with Pairing
+//                                                 Failed it sends the same request once more (a second Req event)
 //   pdu <opcode> <lenclass 0 ok|1 short|2 long> <label>   any other SMP PDU from the central
 //        label: confirm(3): 0 honest, 1 honest for a wrong TK, 2 flipped bit
 //               random(4):  0 honest, 1 wrong (legacy: flipped bit, does not match the confirm value; LESC: another nonce)
@@ -364,6 +366,11 @@ struct harness {
     }
 
     void req(const verif::command& c) {
+        if (!req_once(c) && c.arg(6, 0) != 0) req_once(c);
+    }
+
+    // -> Pairing Response received
+    bool req_once(const verif::command& c) {
         std::uint8_t in[7] = {1, std::uint8_t(c.arg(0)), std::uint8_t(c.arg(1)), std::uint8_t(c.arg(2)),
                               std::uint8_t(c.arg(3, 16)), std::uint8_t(c.arg(4, 0)), std::uint8_t(c.arg(5, 0))};
         std::uint8_t out[MTU]; std::size_t n = MTU;
@@ -380,6 +387,7 @@ struct harness {
         t.f("alg", is_lesc ? lesc_alg_name(lesc_alg(conn(), 0)) : is_leg ? legacy_alg_name(legacy_alg(conn(), 0)) : "none")
          .f("family", is_lesc ? "lesc" : is_leg ? "legacy" : "none");
         out_fields(out, n); obs(); t.end();
+        return ok;
     }
 
     void pdu(const verif::command& c) {
